@@ -76,7 +76,7 @@ def _parsed_params(fn: ast.AST) -> List[Tuple[str, str, bool, bool]]:
 def rule_signature(ctx: Ctx, repo: Repo, tier: str) -> None:
     fi = repo.fn(ST, "render_signature")
     ctx.functions.update({fi.fq, f"{ST}.render_parameter"})
-    seqs = _kind_sequences(5)
+    seqs = _kind_sequences(7 if tier == "thorough" else 5)
     n = 0
     for seq in seqs:
         for variant in range(3):
